@@ -1,6 +1,6 @@
 (* C29 — property theorems (statements only; proofs in C29/Proofs.v, C29/IdmtReal.v) *)
-From Coq Require Import ZArith QArith List Bool Reals.
-From PPV Require Import Base.QN C29.Model C29.Proofs C29.IdmtReal.
+From Coq Require Import ZArith QArith List Bool Reals String.
+From PPV Require Import Base.QN C32.Model C32.Whole C29.Model C29.Proofs C29.IdmtReal C29.FusePchip C29.Grading C29.GradingProofs C29.GradingGuard.
 Import ListNotations.
 
 Open Scope Q_scope.
@@ -15,6 +15,39 @@ Theorem C29_fuse_time_antitone : forall i_start i_stop (c : Q -> Q),
   tle (ttime (fuse_at i_start i_stop c i2)) (ttime (fuse_at i_start i_stop c i1)).
 Proof. exact fuse_antitone. Qed.
 Print Assumptions C29_fuse_time_antitone.
+
+(* the same WITHOUT the curve hypotheses: the melting curve is LogSplineCharacteristic(Pchip) = 10 ** pchip(log10 i) over the
+   characteristic points (a :: t) (fuse.py:70-79, i_start = first, i_stop = last current).  For positive data with strictly
+   increasing currents and non-increasing times (the "monotone characteristic data" of the property) shape preservation is the
+   whole-curve theorem of C32 (C32/Whole.v), so the melt time is non-increasing in the switch current over the whole axis,
+   for every pair lg / pw with the order contract of log10 / 10** *)
+Theorem C29_fuse_pchip_time_antitone : forall (lg pw : Q -> Q),
+  (forall y, 0 < y -> pw (lg y) == y) -> (forall a b, a <= b -> pw a <= pw b) ->
+  (forall a b, 0 < a -> a <= b -> lg a <= lg b) -> (forall a b, 0 < a -> a < b -> lg a < lg b) ->
+  forall (a : pt) (t : list pt), t <> [] -> positive (a :: t) -> sorted (a :: t) -> nonincreasing (a :: t) ->
+  forall i1 i2, i1 <= i2 ->
+  tle (ttime (fuse_at (fst a) (fst (last t a)) (melt lg pw (a :: t)) i2))
+      (ttime (fuse_at (fst a) (fst (last t a)) (melt lg pw (a :: t)) i1)).
+Proof. exact fuse_pchip_antitone. Qed.
+Print Assumptions C29_fuse_pchip_time_antitone.
+(* on [i_start, i_stop] the characteristic is defined and its value lies between the last and the first melting time *)
+Theorem C29_fuse_pchip_curve_defined : forall (lg pw : Q -> Q),
+  (forall y, 0 < y -> pw (lg y) == y) -> (forall a b, a <= b -> pw a <= pw b) ->
+  (forall a b, 0 < a -> a <= b -> lg a <= lg b) -> (forall a b, 0 < a -> a < b -> lg a < lg b) ->
+  forall (a : pt) (t : list pt), t <> [] -> positive (a :: t) -> sorted (a :: t) -> nonincreasing (a :: t) ->
+  forall x, fst a <= x -> x <= fst (last t a) ->
+  exists v, logspline lg pw (a :: t) x = Some v /\ snd (last t a) <= v /\ v <= snd a.
+Proof. exact melt_defined. Qed.
+Print Assumptions C29_fuse_pchip_curve_defined.
+Example C29_fuse_pchip_nonvacuous :
+  let l := [(100, 10); (200 # 1, 1); (400 # 1, 1 # 10)] in
+  positive l /\ sorted l /\ nonincreasing l /\
+  ttime (fuse_at 100 (400 # 1) (melt (fun y => y) (fun y => y) l) (15 # 100)) = TFin (2251 # 544).
+Proof.
+  cbv zeta. split.
+  - intros p [<-|[<-|[<-|[]]]]; split; reflexivity.
+  - split; [simpl; repeat split; reflexivity|]. split; [simpl; repeat split; discriminate|]. vm_compute. reflexivity.
+Qed.
 
 (* the fuse melts exactly when there is a current (not NaN) and it reaches the start value (in A) *)
 Theorem C29_fuse_trip_iff : forall i_start i_stop cv (i : F),
@@ -78,6 +111,98 @@ Theorem C29_activation_value_is_switch_current : forall s a b v,
   select s a b = Some v -> (s = Sc /\ v = a) \/ (s = Pp /\ v = b).
 Proof. exact activation_value. Qed.
 Print Assumptions C29_activation_value_is_switch_current.
+
+(* ---- where the relay gets its settings from (C29/Grading.v: time_grading + the reads of create_protection_function) ----
+   DataFrame form (DTOC columns switch_id,t_gg,t_g / IDMT columns switch_id,tms,t_grade), the code as it is (after "fix: OCRelay reads
+   its time settings and manual pick-up currents by the switch_id column"): for EVERY frame with unique switch ids — any row order,
+   any row labels — the relay of switch s holds the user's values of the row with switch_id = s *)
+Theorem C29_frame_times_are_users : forall g c rows r, c = ColsDtoc \/ c = ColsIdmt -> NoDup (map sid rows) -> In r rows ->
+  relay_times DTOC g (TFrame c rows) (sid r) = Ok {| r_tg := Some (c2 r); r_tgg := Some (c1 r); r_tms := None; r_tgrade := None |} /\
+  relay_times IDMT g (TFrame c rows) (sid r) = Ok {| r_tg := None; r_tgg := None; r_tms := Some (c1 r); r_tgrade := Some (c2 r) |}.
+Proof. exact frame_times_users. Qed.
+Print Assumptions C29_frame_times_are_users.
+Example C29_frame_nonvacuous :
+  let rows := [{| lbl := 7; sid := 1; c1 := 5 # 100; c2 := 4 # 5 |}; {| lbl := 3; sid := 0; c1 := 7 # 100; c2 := 1 # 2 |}] in
+  NoDup (map sid rows) /\
+  relay_times DTOC {| paths := []; par := []; lines := []; closed := [] |} (TFrame ColsDtoc rows) 1 =
+    Ok {| r_tg := Some (4 # 5); r_tgg := Some (5 # 100); r_tms := None; r_tgrade := None |}.
+Proof.
+  simpl. split; [|reflexivity].
+  constructor; [intros [H|[]]; discriminate|]. constructor; [intros []|constructor].
+Qed.
+(* regression witnesses: before the repair the rows were read by ROW LABEL — correct only if every row was labelled with its
+   switch id, and wrong otherwise *)
+Theorem C29_frame_times_are_users_old_partial : forall g c rows r, c = ColsDtoc \/ c = ColsIdmt ->
+  G29_frame_labels rows = true -> NoDup (map sid rows) -> In r rows ->
+  relay_times_old DTOC g (TFrame c rows) (sid r) = Ok {| r_tg := Some (c2 r); r_tgg := Some (c1 r); r_tms := None; r_tgrade := None |} /\
+  relay_times_old IDMT g (TFrame c rows) (sid r) = Ok {| r_tg := None; r_tgg := None; r_tms := Some (c1 r); r_tgrade := Some (c2 r) |}.
+Proof. exact frame_times_old_partial. Qed.
+Print Assumptions C29_frame_times_are_users_old_partial.
+Theorem C29_frame_times_are_users_old_refuted : exists g c rows r, (c = ColsDtoc \/ c = ColsIdmt) /\ NoDup (map sid rows) /\ In r rows /\
+  relay_times_old DTOC g (TFrame c rows) (sid r) <> Ok {| r_tg := Some (c2 r); r_tgg := Some (c1 r); r_tms := None; r_tgrade := None |}.
+Proof. exact frame_times_old_refuted. Qed.
+Print Assumptions C29_frame_times_are_users_old_refuted.
+
+(* list form (topological grading), the code as it is: in every net with a unique switch index — open switches, gapped or shuffled
+   switch ids included — the relay of a closed switch s holds the user's t>> and the stage time t> + depth * t_diff of ITS OWN line *)
+Theorem C29_list_stage_time_is_own : forall g a b c s el v,
+  NoDup (map fst (closed g)) -> In (s, el) (closed g) -> get (line_time g b c) el = Some v ->
+  forall tab, grading_list g [a; b; c] = Ok tab ->
+  relay_times DTOC g (TList [a; b; c]) s = Ok {| r_tg := Some v; r_tgg := Some a; r_tms := None; r_tgrade := None |}.
+Proof. exact list_stage_users. Qed.
+Print Assumptions C29_list_stage_time_is_own.
+Example C29_list_nonvacuous :
+  let g := {| paths := [[0%Z]; [0%Z; 1%Z]]; par := []; lines := [0%Z; 1%Z]; closed := [(7%Z, 1%Z); (2%Z, 0%Z)] |} in
+  NoDup (map fst (closed g)) /\ get (line_time g (1 # 2) (1 # 4)) 0%Z = Some (3 # 4) /\
+  relay_times DTOC g (TList [1 # 16; 1 # 2; 1 # 4]) 2 = Ok {| r_tg := Some (3 # 4); r_tgg := Some (1 # 16); r_tms := None; r_tgrade := None |} /\
+  relay_times DTOC g (TList [1 # 16; 1 # 2; 1 # 4]) 7 = Ok {| r_tg := Some (1 # 2); r_tgg := Some (1 # 16); r_tms := None; r_tgrade := None |}.
+Proof.
+  cbv zeta. split; [simpl; constructor; [intros [H|[]]; discriminate|]; constructor; [intros []|constructor]|].
+  repeat split; vm_compute; reflexivity.
+Qed.
+(* whenever the relay can be constructed its t>> (DTOC) / tms (IDMT) IS the user's value *)
+Theorem C29_list_tgg_is_users : forall g a b c s rt, relay_times DTOC g (TList [a; b; c]) s = Ok rt -> r_tgg rt = Some a.
+Proof. exact list_tgg_is_users. Qed.
+Print Assumptions C29_list_tgg_is_users.
+Theorem C29_list_tms_is_users : forall g a b s rt, relay_times IDMT g (TList [a; b]) s = Ok rt -> r_tms rt = Some a.
+Proof. exact list_tms_is_users. Qed.
+Print Assumptions C29_list_tms_is_users.
+(* regression witnesses: before the repair the relay read the table row at POSITION s (sorted by switch id): its own row only when
+   the closed switches were 0 .. n-1, another switch's stage time or a KeyError otherwise *)
+Theorem C29_list_old_reads_row_at_position : forall g a b c s tab, grading_list g [a; b; c] = Ok tab -> (0 <= s)%Z ->
+  exists l, tab = relabel 0 l /\
+    relay_times_old DTOC g (TList [a; b; c]) s =
+    match nth_error l (Z.to_nat s) with
+    | Some (_, tg, tgg) => Ok {| r_tg := Some tg; r_tgg := Some tgg; r_tms := None; r_tgrade := None |}
+    | None => Raise "KeyError"%string
+    end.
+Proof. exact list_old_reads_position. Qed.
+Print Assumptions C29_list_old_reads_row_at_position.
+Theorem C29_list_stage_time_is_own_old_partial : forall g a b c s el v,
+  G29_list_positions g = true -> In (s, el) (closed g) -> get (line_time g b c) el = Some v ->
+  forall tab, grading_list g [a; b; c] = Ok tab ->
+  relay_times_old DTOC g (TList [a; b; c]) s = Ok {| r_tg := Some v; r_tgg := Some a; r_tms := None; r_tgrade := None |}.
+Proof. exact list_stage_old_partial. Qed.
+Print Assumptions C29_list_stage_time_is_own_old_partial.
+Theorem C29_list_stage_time_is_own_old_refuted : exists g a b c s el v rt, NoDup (map fst (closed g)) /\ In (s, el) (closed g) /\
+  get (line_time g b c) el = Some v /\ relay_times_old DTOC g (TList [a; b; c]) s = Ok rt /\ r_tg rt <> Some v.
+Proof. exact list_old_position_refuted. Qed.
+Print Assumptions C29_list_stage_time_is_own_old_refuted.
+
+(* manual pick-up currents, the code as it is: the relay of switch s holds the user's row with switch_id = s (any order) *)
+Theorem C29_pickup_is_users : forall rows r, NoDup (map k_sid rows) -> In r rows -> pickup_by_sid rows (k_sid r) = Ok r.
+Proof. exact pickup_users. Qed.
+Print Assumptions C29_pickup_is_users.
+Theorem C29_pickup_is_users_sound : forall rows r s, pickup_by_sid rows s = Ok r -> In r rows /\ k_sid r = s.
+Proof. exact pickup_sound. Qed.
+Print Assumptions C29_pickup_is_users_sound.
+(* before the repair they were read by row POSITION *)
+Theorem C29_pickup_is_users_old_partial : forall rows r s, G29_positions (map k_sid rows) = true -> pickup_iloc rows s = Ok r -> k_sid r = s.
+Proof. exact pickup_old_partial. Qed.
+Print Assumptions C29_pickup_is_users_old_partial.
+Theorem C29_pickup_is_users_old_refuted : exists rows r s, pickup_iloc rows s = Ok r /\ k_sid r <> s.
+Proof. exact pickup_old_refuted. Qed.
+Print Assumptions C29_pickup_is_users_old_refuted.
 
 Close Scope Q_scope.
 Open Scope R_scope.
